@@ -18,6 +18,7 @@ import (
 	"hash/crc64"
 	"os"
 	"path/filepath"
+	"sync"
 	"testing"
 	"time"
 
@@ -82,6 +83,8 @@ type gEpoch struct {
 	Objs    []*gObj
 	HdrLen  uint64
 	bySlot  map[uint64]*gBlock
+	allSigs []solana.Signature
+	twins   int
 }
 
 type genOpts struct {
@@ -102,6 +105,12 @@ type genOpts struct {
 	// ExtraAccounts: additional (non-signer) account keys that transactions mention now and then, e.g. addresses
 	// chosen to collide in another epoch's index
 	ExtraAccounts []solana.PublicKey
+	// Twins: number of transactions whose first signature shares its two-byte prefix with an earlier signature of
+	// the epoch (0 = default 3, negative = none)
+	Twins int
+	// DataEmbeds: byte strings (e.g. 32-byte addresses that are NOT accounts of any transaction) that every
+	// transaction carries inside its instruction data
+	DataEmbeds [][]byte
 }
 
 func pp[T any](v T) **T { p := &v; return &p }
@@ -217,6 +226,51 @@ func exactFrame(rng *zz.RNG, want int) []byte {
 	panic(fmt.Sprintf("exactFrame: cannot reach %d bytes", want))
 }
 
+// grindSigPrefix re-signs tx (single signer `payer`) with varying recent-blockhash values until the signature starts
+// with `want`.  Deterministic: the smallest counter that works is taken, whatever the number of worker goroutines.
+func grindSigPrefix(tx *solana.Transaction, payer solana.PrivateKey, want [2]byte) {
+	msg, err := tx.Message.MarshalBinary()
+	if err != nil {
+		panic(err)
+	}
+	off := bytes.Index(msg, tx.Message.RecentBlockhash[:])
+	if off < 0 {
+		panic("blockhash not found in the message")
+	}
+	priv := ed25519.PrivateKey(payer)
+	const workers, chunk = 16, 2048
+	for base := uint64(0); ; base += workers * chunk {
+		found := make([]uint64, workers)
+		var wg sync.WaitGroup
+		for wi := 0; wi < workers; wi++ {
+			wg.Add(1)
+			go func(wi int) {
+				defer wg.Done()
+				m := append([]byte{}, msg...)
+				found[wi] = ^uint64(0)
+				lo := base + uint64(wi)*chunk
+				for c := lo; c < lo+chunk; c++ {
+					binary.LittleEndian.PutUint64(m[off:], c)
+					sig := ed25519.Sign(priv, m)
+					if sig[0] == want[0] && sig[1] == want[1] {
+						found[wi] = c
+						return
+					}
+				}
+			}(wi)
+		}
+		wg.Wait()
+		for wi := 0; wi < workers; wi++ {
+			if c := found[wi]; c != ^uint64(0) {
+				binary.LittleEndian.PutUint64(tx.Message.RecentBlockhash[:8], c)
+				binary.LittleEndian.PutUint64(msg[off:], c)
+				copy(tx.Signatures[0][:], ed25519.Sign(priv, msg))
+				return
+			}
+		}
+	}
+}
+
 func genKeys(n int, base byte) []solana.PrivateKey {
 	var ks []solana.PrivateKey
 	for i := 0; i < n; i++ {
@@ -276,6 +330,9 @@ func genEpoch(rng *zz.RNG, dir string, o genOpts) *gEpoch {
 				dlen = 900
 			}
 			data := rng.Bytes(dlen)
+			for _, em := range o.DataEmbeds {
+				data = append(append([]byte{}, em...), data...) // byte strings carried in instruction DATA only
+			}
 			ix := solana.NewInstruction(pid, solana.AccountMetaSlice{solana.Meta(payer.PublicKey()).WRITE().SIGNER(), solana.Meta(other).WRITE()}, data)
 			var bh solana.Hash
 			copy(bh[:], rng.Bytes(32))
@@ -292,6 +349,23 @@ func genEpoch(rng *zz.RNG, dir string, o genOpts) *gEpoch {
 			if err != nil {
 				panic(err)
 			}
+			// signatures sharing their first two bytes with an earlier one of the epoch: they land in the same bucket of
+			// the sig-exists index (populations 2, 3 instead of the 1 that random signatures give).  `index gsfa` verifies
+			// signatures, so the twin is found by re-signing with other recent-blockhash values (about 65 536 tries).
+			if nt := o.Twins; len(ge.allSigs) > 0 && nt >= 0 {
+				if nt == 0 {
+					nt = 3
+				}
+				if ge.twins < nt && (len(ge.allSigs) == 1 || len(ge.allSigs) == 2 || rng.Intn(8) == 0) {
+					from := ge.allSigs[len(ge.allSigs)-1]
+					if ge.twins == 1 {
+						from = ge.allSigs[0] // a bucket of three
+					}
+					grindSigPrefix(tx, payer, [2]byte{from[0], from[1]})
+					ge.twins++
+				}
+			}
+			ge.allSigs = append(ge.allSigs, tx.Signatures[0])
 			raw, err := tx.MarshalBinary()
 			if err != nil {
 				panic(err)
